@@ -96,6 +96,8 @@ def analyse(ctx, d: Def, self_cls):
 
 def run(ctx, col, tier):
     repo = ctx.repo
+    from ..rules import stateless as _stateless_memo
+    _stateless_memo.run_memo(ctx, col)
     col.rule("R-PURE", "ownership abstract interpretation of each discovered tree->tree "
              "operation (callees and traversal callbacks expanded): no store through any alias "
              "of an input tree's storage or object; the result is a fresh object none of whose "
